@@ -67,7 +67,7 @@ def body_evalobj(E, n, m, with_h, preset, xr=False):
             f = f + M.h(x)
         thresh = E.ite(M.rel_tol * M.objbeg > M.abs_tol, M.rel_tol * M.objbeg, M.abs_tol)
         if not xr:
-            E.prove(E.le(f, thresh), 'C10:small-objective-exit-is-true')
+            E.prove(E.le(f, thresh, tol=0), 'C10:small-objective-exit-is-true')
         # a success flag is never attached to a non-finite objective (whatever f(x0) was: finite, inf or NaN)
         E.prove(E.isfinite(f), 'C10:small-objective-success-has-a-finite-objective')
 
@@ -145,7 +145,7 @@ def body_x0block(E, n, m, with_h, r0_old):
         if exit_info.flag == E.get('EXIT_MAXFUN_WARNING'):
             E.prove(nf1 == maxfun, 'C10:x0-exit:maxfun-message-is-true')
         if exit_info.flag == E.get('EXIT_SUCCESS'):
-            E.prove(E.le(f, params("model.abs_tol")), 'C10:x0-exit:small-objective-exit-is-true')
+            E.prove(E.le(f, params("model.abs_tol"), tol=0), 'C10:x0-exit:small-objective-exit-is-true')
 
 
 def body_restart_admission(E, n, m, preset):
